@@ -115,46 +115,55 @@ Qed.
 (* ------------------------------------------------------------------ *)
 (* header (C06 header clause, C07 anonymous clause)                     *)
 
+(* no textual public id: anonymous, or a language with a numeric public id, or one without XML public id *)
 Definition no_pid (e : env) : bool :=
-  negb ((bl_pub_num (e_lang e) =? 1) && negb (e_anonymous e)) ||
+  e_anonymous e || negb (bl_pub_num (e_lang e) =? 1) ||
   match bl_pub_text (e_lang e) with Some _ => false | None => true end.
 
-(* numeric public id: version, mb(public id), mb(106), mb(table length), table *)
+(* numeric public id: version, mb(public id), [charset 106 unless WBXML 1.0], mb(table length), table *)
 Lemma fill_header_numeric e st :
   no_pid e = true ->
-  fill_header e st = [u8 (e_version e)] ++ mb_write (bl_pub_num (e_lang e)) ++ mb_write 106 ++ mb_write (strtbl_len st)
+  fill_header e st = [u8 (e_version e)] ++ mb_write (header_public_id e) ++ header_charset e ++ mb_write (strtbl_len st)
                      ++ (if e_use_strtbl e then strtbl_construct (strtbl st) else []).
 Proof.
-  unfold no_pid, fill_header. intros H.
-  destruct ((bl_pub_num (e_lang e) =? 1) && negb (e_anonymous e)) eqn:E; cbn [negb orb] in H.
-  - destruct (bl_pub_text (e_lang e)); [discriminate|]. reflexivity.
-  - reflexivity.
+  unfold no_pid, fill_header, header_public_id. intros H.
+  destruct (e_anonymous e) eqn:A; cbn [negb andb orb] in *.
+  - rewrite andb_false_r. reflexivity.
+  - destruct (bl_pub_num (e_lang e) =? 1) eqn:E; cbn [negb andb orb] in *; [|reflexivity].
+    destruct (bl_pub_text (e_lang e)); [discriminate|]. reflexivity.
 Qed.
 
-(* an anonymous document of a language without numeric public id: 0x01 'unknown' and no id string *)
+(* the numeric public id is the language's when the document is not anonymous *)
+Lemma fill_header_numeric_lang e st :
+  e_anonymous e = false -> no_pid e = true ->
+  fill_header e st = [u8 (e_version e)] ++ mb_write (bl_pub_num (e_lang e)) ++ header_charset e ++ mb_write (strtbl_len st)
+                     ++ (if e_use_strtbl e then strtbl_construct (strtbl st) else []).
+Proof. intros Ha Hp. rewrite (fill_header_numeric e st Hp). unfold header_public_id. now rewrite Ha. Qed.
+
+(* an anonymous document, whatever the language: 0x01 'unknown' and no id string *)
 Lemma fill_header_anonymous e st :
-  e_anonymous e = true -> bl_pub_num (e_lang e) = 1 ->
-  fill_header e st = [u8 (e_version e); 1] ++ mb_write 106 ++ mb_write (strtbl_len st)
+  e_anonymous e = true ->
+  fill_header e st = [u8 (e_version e); 1] ++ header_charset e ++ mb_write (strtbl_len st)
                      ++ (if e_use_strtbl e then strtbl_construct (strtbl st) else []).
 Proof.
-  intros Ha Hn. rewrite fill_header_numeric.
-  - rewrite Hn. reflexivity.
-  - unfold no_pid. rewrite Ha, Hn. reflexivity.
+  intros Ha. rewrite fill_header_numeric.
+  - unfold header_public_id. rewrite Ha. reflexivity.
+  - unfold no_pid. rewrite Ha. reflexivity.
 Qed.
 
 (* textual public id without string table: 0, index 0, charset, length of the id + 1, the id, NUL *)
 Lemma fill_header_textual_nostrtbl e st p :
   bl_pub_num (e_lang e) = 1 -> e_anonymous e = false -> bl_pub_text (e_lang e) = Some p -> e_use_strtbl e = false ->
-  fill_header e st = [u8 (e_version e)] ++ ([0] ++ mb_write 0) ++ mb_write 106 ++ mb_write (u32 (len p + 1)) ++ (p ++ [0]).
+  fill_header e st = [u8 (e_version e)] ++ ([0] ++ mb_write 0) ++ header_charset e ++ mb_write (u32 (len p + 1)) ++ (p ++ [0]).
 Proof.
-  intros Hn Ha Hp Hu. unfold fill_header. rewrite Hn, Ha, Hp, Hu. reflexivity.
+  intros Hn Ha Hp Hu. unfold fill_header, header_public_id. rewrite Ha, Hn, Hp, Hu. reflexivity.
 Qed.
 
 (* the version byte is the requested one, whatever else *)
 Lemma fill_header_version e st : exists r, fill_header e st = u8 (e_version e) :: r.
 Proof.
   unfold fill_header.
-  destruct ((bl_pub_num (e_lang e) =? 1) && negb (e_anonymous e)); [destruct (bl_pub_text (e_lang e))|];
+  destruct ((header_public_id e =? 1) && negb (e_anonymous e)); [destruct (bl_pub_text (e_lang e))|];
     try destruct (e_use_strtbl e); try destruct (strtbl_add _ _ _) as [[? ?] ?]; eexists; reflexivity.
 Qed.
 
@@ -464,7 +473,7 @@ Theorem header_strtbl_length_exact e st :
               len (strtbl_construct (strtbl st)) = strtbl_len st.
 Proof.
   intros Hp Hu [_ Hl]. rewrite fill_header_numeric by exact Hp. rewrite Hu.
-  exists ([u8 (e_version e)] ++ mb_write (bl_pub_num (e_lang e)) ++ mb_write 106). split.
+  exists ([u8 (e_version e)] ++ mb_write (header_public_id e) ++ header_charset e). split.
   - now rewrite <- !app_assoc.
   - now rewrite strtbl_construct_len.
 Qed.
@@ -741,11 +750,11 @@ Lemma fill_header_textual_strtbl e st p :
   bl_pub_num (e_lang e) = 1 -> e_anonymous e = false -> bl_pub_text (e_lang e) = Some p -> e_use_strtbl e = true ->
   exists idx tbl tlen,
     strtbl_add (strtbl st) (strtbl_len st) p = (idx, tbl, tlen) /\
-    fill_header e st = [u8 (e_version e)] ++ ([0] ++ mb_write idx) ++ mb_write 106 ++ mb_write tlen ++ strtbl_construct tbl /\
+    fill_header e st = [u8 (e_version e)] ++ ([0] ++ mb_write idx) ++ header_charset e ++ mb_write tlen ++ strtbl_construct tbl /\
     (tinv st -> tbl_size tbl < 4294967296 ->
        (offsets_from 0 tbl /\ tlen = len (strtbl_construct tbl)) /\ exists x, In x tbl /\ s_off x = idx /\ s_str x = p).
 Proof.
-  intros Hn Ha Hp Hu. unfold fill_header. rewrite Hn, Ha, Hp, Hu.
+  intros Hn Ha Hp Hu. unfold fill_header, header_public_id. rewrite Ha, Hn, Hp, Hu.
   change ((1 =? 1) && negb false) with true. cbv iota.
   destruct (strtbl_add (strtbl st) (strtbl_len st) p) as [[idx tbl] tlen] eqn:A.
   exists idx, tbl, tlen. split; [reflexivity|]. split; [reflexivity|].
